@@ -19,6 +19,8 @@ import (
 	"path/filepath"
 	"sort"
 	"strings"
+
+	"github.com/elliotchance/gedcom/v39"
 )
 
 type c13Effects struct {
@@ -270,6 +272,30 @@ func init() {
 		for _, n := range order {
 			fmt.Fprintf(&b, "  %s := %s\n", n, facts[n])
 		}
+		// the tags Tag.IsEvent() answers true for, as byte strings (IndividualNode.AllEvents filters on it)
+		evSeen := map[string]bool{}
+		var evs []string
+		for _, t := range gedcom.Tags() {
+			if t.IsEvent() && !evSeen[t.Tag()] {
+				evSeen[t.Tag()] = true
+				evs = append(evs, t.Tag())
+			}
+		}
+		sort.Strings(evs)
+		b.WriteString("\n/-- the registered tags `Tag.IsEvent()` is true for (gedcom.Tags() of the linked library), as bytes -/\n")
+		b.WriteString("def cacheEventTags : List (List UInt8) := [\n")
+		for i, t := range evs {
+			var bs []string
+			for _, c := range []byte(t) {
+				bs = append(bs, fmt.Sprint(int(c)))
+			}
+			sep := ","
+			if i == len(evs)-1 {
+				sep = ""
+			}
+			fmt.Fprintf(&b, "  [%s]%s -- %s\n", strings.Join(bs, ", "), sep, t)
+		}
+		b.WriteString("]\n")
 		b.WriteString("\nend Gedcom.Generated\n")
 		return b.String()
 	}
